@@ -1,5 +1,6 @@
 import Mitx.Driver.Proto
 import Mitx.Model.Munkres
+import Mitx.Model.MunkresHeap
 namespace Drv
 open Lean Proto
 
@@ -8,5 +9,21 @@ def munkres (j : Json) : Except String Json := do
   match Mk.compute m with
   | none => pure (Json.mkObj [("out", Json.null)])
   | some ps => pure (Json.mkObj [("out", jList (fun (p : Nat × Nat) => Json.arr #[jNat p.1, jNat p.2]) ps)])
+
+/-- op `munkres_heap`: the object-identity model: caller rows get identities 0..r-1; returns the pairs, the final contents of `self.C`,
+    the identities of its rows, and the caller's matrix as read back from the heap afterwards -/
+def munkresHeap (j : Json) : Except String Json := do
+  let m ← getList (getList getRat) (← field j "m")
+  let r := m.length
+  let h : MkH.Heap := ⟨fun id k => (m.getD id []).getD k 0, fun id => (m.getD id []).length, r⟩
+  let caller := List.range r
+  match MkH.finalState (MkH.readMatrix h caller), MkH.computeH .copy h caller with
+  | some s, some (h', out) =>
+    let ids := (List.range s.n).map (MkH.workId .copy h caller s.n)
+    pure (Json.mkObj [("out", jList (fun (p : Nat × Nat) => Json.arr #[jNat p.1, jNat p.2]) out),
+      ("finalC", jList (fun id => jList (fun k => jRat (h'.row id k)) (List.range s.n)) ids),
+      ("fresh", Json.bool (ids.all (fun id => decide (r ≤ id)))),
+      ("caller", jList (fun row => jList jRat row) (MkH.readMatrix h' caller))])
+  | _, _ => pure (Json.mkObj [("out", Json.null)])
 
 end Drv
